@@ -640,7 +640,7 @@ impl Driver for CustomSections {
         "C28"
     }
     fn rule(&self) -> &'static str {
-        "tape -> valid G-static base with 0-4 custom sections (duplicate names, empty name, producers / target_features / linking with arbitrary payloads) at random positions -> 0-6 edits from {custom_sections.add, delete, get_section_data_mut (append/overwrite/truncate), get_id lookups} applied to the library and to a list model -> encode -> the ordered (name, bytes) list of non-name custom sections decoded from the output equals the model and every other entity is unchanged. Non-trivial: >=2 custom sections and >=1 edit. Distinct = hash(base, edits)."
+        "tape -> valid G-static base with 0-4 custom sections (duplicate names, empty name, producers / target_features / linking with arbitrary payloads) at random positions -> 0-6 edits from {custom_sections.add, delete, get_section_data_mut (append/overwrite/truncate), get_id lookups} applied to the library and to a list model -> encode -> the ordered (name, bytes) list of non-name custom sections decoded from the output equals the model and every other entity is unchanged; in half of the cases the same Module value is then edited further (0-2 edits) and encoded again, up to two times, and every encoding is compared. Non-trivial: >=2 custom sections and >=1 edit. Distinct = hash(base, edits)."
     }
     fn tape_len(&self) -> usize {
         3072
@@ -661,10 +661,16 @@ impl Driver for CustomSections {
             Ok(m) => m,
             Err(o) => return o,
         };
-        let n_edits = c.t.below(7);
         let mut log = vec![];
         // names must outlive the module: leak a few small strings (bounded by the case count)
         let names: Vec<&'static str> = vec!["added0", "added1", "dup", "", "producers"];
+        // phase 0: 0-6 edits, encode, compare.  Then (decided after everything else on the tape,
+        // so that older tapes keep their meaning) up to two more rounds of 0-2 further edits and
+        // another encode of the same Module value: every encoding must reflect the model.
+        let mut phase = 0;
+        let mut out: Vec<u8>;
+        loop {
+        let n_edits = if phase == 0 { c.t.below(7) } else { c.t.below(3) };
         for _ in 0..n_edits {
             match c.t.below(4) {
                 0 => {
@@ -744,7 +750,7 @@ impl Driver for CustomSections {
             }
         }
         c.note(|| format!("BASE\n{}\nEDITS\n{}", dm::print_wat(&bytes), log.join("\n")));
-        let out = match lib_encode(&mut module) {
+        out = match lib_encode(&mut module) {
             Ok(b) => b,
             Err(o) => return o,
         };
@@ -752,11 +758,21 @@ impl Driver for CustomSections {
             Ok(d) => d,
             Err(e) => return fail("undecodable-output", e),
         };
-        if let Some(o) = diff_fail(&flat_trivial(&want), &flat_trivial(&got), "custom") {
+        let tag = if phase == 0 { "custom" } else { "custom-later-encode" };
+        if let Some(o) = diff_fail(&flat_trivial(&want), &flat_trivial(&got), tag) {
             return o;
         }
         if let Err(e) = dm::validate(&out) {
             return fail(format!("invalid-output:{}", mask(e.split(" (at offset").next().unwrap_or(&e), 50)), e);
+        }
+        if phase >= 2 || c.t.below(2) == 0 {
+            break;
+        }
+        phase += 1;
+        log.push("encode".to_string());
+        }
+        if phase > 0 {
+            c.class("encoded_again_after_edits");
         }
         c.class(&format!("customs:{}", want.customs.len().min(5)));
         if want.customs.len() >= 2 && !log.is_empty() {
